@@ -157,7 +157,12 @@ def wrap_html_tags(text: str, before: str, after: str):
     """Wrap any html tags in text with before and after strings."""
     # use a function so that backslashes in before/after are inserted
     # literally instead of being read as regex replacement escapes
-    return re.sub(r"(<[^>]+>)", lambda m: f"{before}{m[1]}{after}", text)
+    # a quoted attribute value may contain ">"
+    return re.sub(
+        r"""(<(?:[^>"']|"[^"]*"|'[^']*')+>)""",
+        lambda m: f"{before}{m[1]}{after}",
+        text,
+    )
 
 
 def hyperscan_match(regexes, text):
